@@ -257,10 +257,12 @@ impl Family for C10 {
       ("subject", Json::str(*rng.pick(&["subject", "behavior", "replay", "async"]))),
       ("observers", Json::Arr((0..nobs).map(|_| Json::str(*rng.pick(&["direct", "direct", "map", "take1", "take2"]))).collect())),
       ("ops", Json::arr(ops.iter(), op_to_json)),
+      ("share_observable", Json::Bool(rng.below(2) == 0)),
     ])
   }
   fn exec(&self, w: &Json, cfg: RunCfg) -> RunOut {
     let kind = w.s("subject");
+    let share = w.b("share_observable");
     if Subj::make(&kind).is_none() {
       return RunOut::invalid();
     }
@@ -287,16 +289,18 @@ impl Family for C10 {
       let sbj = Subj::make(&kind2).unwrap();
       let mut subs: Vec<Option<Subscription<'static>>> = vec![None; recs2.len()];
       let mut ever = vec![false; recs2.len()];
+      let shared_obs = sbj.observable();
+      let get_obs = |s: &Subj| if share { shared_obs.clone() } else { s.observable() };
       for op in &ops2 {
         match op {
           Op::Sub(i) => {
             if !ever[*i] {
               ever[*i] = true;
               let o = match ok2[*i].as_str() {
-                "map" => sbj.observable().map(|x: Val| x),
-                "take1" => sbj.observable().take(1),
-                "take2" => sbj.observable().take(2),
-                _ => sbj.observable(),
+                "map" => get_obs(&sbj).map(|x: Val| x),
+                "take1" => get_obs(&sbj).take(1),
+                "take2" => get_obs(&sbj).take(2),
+                _ => get_obs(&sbj),
               };
               subs[*i] = Some(recs2[*i].subscribe(&o));
             }
